@@ -31,7 +31,13 @@ open Spec
 /-- **emit_refines.**  For every program and every history of top-level actions the invocation
     log of the model of Callback.cpp is the invocation log of the specification: an emission
     invokes, in connection order, exactly the connections made before the outermost emission of
-    that signal in progress began and still live at their turn. -/
+    that signal in progress began and still live at their turn.
+    The log labels an invocation by the harness index the listener object carries in its `id` field
+    (`Run.lIdx`), as the C++ harness does, not by the object id: a listener re-created in the same
+    variable (`newL`) is a new object id in both machines and logs under the same index as its
+    predecessor.  That the invoked object is the live one and not the destroyed predecessor is not
+    read off the log but stated separately: `no_use_after_free` (the evaluator flags any invocation
+    of a destroyed object id) and `never_invoked_unless_listed`. -/
 theorem emit_refines (P : Prog) (ne nl fuel : Nat) (ops : List Action) :
     (runOps machine P fuel (Run.init State.fresh ne nl) ops).log =
       (runOps Spec.machine P fuel (Run.init SState.fresh ne nl) ops).log :=
